@@ -46,4 +46,9 @@ func TestCheckReclaimFairness(t *testing.T) {
 		func(t *rapid.T) *sim.World { return sim.GenWorld(t, profile()) }, sim.JudgeReclaim)
 }
 
+// one decision with victims inside the reclaimer's own department and in another department
+func TestCheckTwoBranchReclaimFamilies(t *testing.T) {
+	sim.CheckProperty(t, "C07", kit.Budget{Quick: 6000, Thorough: 150000}, sim.GenTwoBranchReclaimFamily, sim.JudgeReclaim)
+}
+
 func TestReplay(t *testing.T) { sim.ReplayProperty(t, sim.JudgeReclaim, 20) }
